@@ -67,9 +67,14 @@ def list_ops(aid, n, univ, fns, other):
     ops = []
     for v in univ:
         ops.append(("with_item", aid, H([v])))
+        # `_insert=True` WITHOUT `_index`: nothing to insert before, the item is appended
+        ops.append(("with_item", aid, H([v], insert=True)))
         for i in idx:
             for ins in (False, True):
                 ops.append(("with_item", aid, H([v], index=i, insert=ins)))
+    # `_index=None` handed over explicitly is an index that is no integer (TypeError), with and without `_insert`
+    for ins in (False, True):
+        ops.append(("with_item", aid, H([univ[0]], index=NONE, insert=ins)))
     targets = idx + [u for u in univ if u not in idx]
     for t in targets:
         for bi in (None, True, False):
@@ -173,6 +178,9 @@ def exhaustive(tier, rng):
         for i in idx:
             ops.append(("with_item", A_LS, H([S(0)], index=i, insert=True)))
             ops.append(("with_item", A_LS, H([S(8)], index=i)))
+        for v in (S(0), S(8)):
+            ops.append(("with_item", A_LS, H([v])))
+            ops.append(("with_item", A_LS, H([v], insert=True)))
         ops = keep(ops, 0.4)
         cases += make_cases(t_plain, A_LS, ("list", xs), ops, batch, inplace_every=7)
     # dicts
@@ -204,6 +212,54 @@ def exhaustive(tier, rng):
     cases += make_cases(t_plain, A_D, ("dict", [(S(0), V(0))]), [o for o in noop if o[1] == A_D], batch, inplace_every=2)
     cases += make_cases(t_plain, A_S, ("set", [V(0)]), [o for o in noop if o[1] == A_S], batch, inplace_every=2)
     return cases, stats
+
+
+def flag_combinations():
+    """every combination of the flags of the list element helpers that the enumeration by
+    (`_index` x `_insert`) leaves out, on an aimed set of receivers, kept in BOTH tiers (no sampling),
+    each call copy-on-write and in place:
+      * `with_<item>(x, _insert=True)` WITHOUT `_index` -- nothing to insert before, so the item is
+        appended ("creating the container when it is missing"): container missing / empty (explicit
+        and default_factory) / one / several elements with equal ones, List[int] and List[str], falsy
+        items, an item preparer, an ill-typed item (ValueError, nothing changed), no item at all;
+      * `_index=None` handed over explicitly (an index that is no integer: TypeError) with and
+        without `_insert`;
+      * the same calls under `_if=False` (nothing happens, whatever the other flags say);
+      * `_by_index` True / False given explicitly together with `_if=False`, and on a missing container.
+    (Dict / Set helpers have no flags besides `_inplace` / `_if`; `with_<item>` of a Dict of scalars
+    requires key and value -- leaving one out is rejected by the signature, not by the helper.)"""
+    cases = []
+    t_plain, t_def = small_table(), small_table(defaults=True)
+    t_prep = small_table(prep_li=("addint", 10), prep_s=("addint", 10))
+
+    def with_calls(aid, univ, bad):
+        ops = []
+        for v in univ:
+            ops.append(("with_item", aid, H([v], insert=True)))
+        ops.append(("with_item", aid, H([univ[0]])))
+        ops.append(("with_item", aid, H([bad], insert=True)))
+        ops.append(("with_item", aid, H([], insert=True)))
+        ops.append(("with_item", aid, H([])))
+        for ins in (False, True):
+            ops.append(("with_item", aid, H([univ[1]], index=NONE, insert=ins)))
+            ops.append(("with_item", aid, H([univ[1]], index=NONE, insert=ins, if_=False)))
+        ops.append(("with_item", aid, H([univ[1]], insert=True, if_=False)))
+        ops.append(("with_item", aid, H([univ[1]], index=V(7), if_=False)))
+        for bi in (True, False):
+            ops.append(("without_item", aid, H([V(0)], by_index=bi, if_=False)))
+            ops.append(("update_item", aid, H([V(0), univ[2]], by_index=bi, if_=False)))
+            ops.append(("without_item", aid, H([V(0)], by_index=bi)))
+            ops.append(("update_item", aid, H([V(0), univ[2]], by_index=bi)))
+        return ops
+    li = [None, [], [V(0)], [V(1), V(0)], [V(0), V(1), V(0)], [V(2), V(2), V(1), V(0)]]
+    for table in (t_plain, t_def, t_prep):
+        for xs in (li if table is t_plain else li[:2] + li[3:4] if table is t_def else li[:1] + li[2:3] + li[4:5]):
+            cases += make_cases(table, A_LI, None if xs is None else ("list", xs), with_calls(A_LI, INTS, S(7)), 12,
+                                inplace_every=1)
+    for xs in (None, [], [S(0)], [S(7), S(0)], [S(0), S(8), S(0)]):
+        cases += make_cases(t_plain, A_LS, None if xs is None else ("list", xs), with_calls(A_LS, STRS, V(1)), 12,
+                            inplace_every=1)
+    return cases
 
 
 def random_chain(rng, n_ops, prep=False):
@@ -283,7 +339,16 @@ def keyed_elements(tier, rng):
         ("update_item", A_LK, H([V(0)], kw=kw)),
         ("update_item", A_LK, H([V(-1), S(11)], by_index=True)),
         ("without_item", A_LK, H([V(0)])),
+        # `_insert=True` without `_index`: appended like without the flag -- bare key promoted, bare key
+        # with keywords, element built from keywords only; also under `_if=False` and with `_index=None`
+        ("with_item", A_LK, H([S(10)], insert=True)),
+        ("with_item", A_LK, H([S(10)], insert=True, kw=kw)),
+        ("with_item", A_LK, H([], insert=True, kw=[(2, S(11)), (1, V(2))])),
+        ("with_item", A_LK, H([S(10)], insert=True, if_=False)),
+        ("with_item", A_LK, H([S(10)], index=NONE, insert=True)),
+        ("with_item", A_LK, H([S(10)], index=NONE, kw=kw)),
     ]
+    n_old = 12
     dict_calls = [
         ("with_item", A_DK, H([S(7), S(10)])),
         ("with_item", A_DK, H([S(7), S(10)], kw=kw)),
@@ -322,7 +387,7 @@ def keyed_elements(tier, rng):
                     for j, (kind, a, h) in enumerate(calls):
                         hist.append((("helper", recv, (kind, a), dict(h)), None))
                         n += 1
-                        if j % 2 == 0:
+                        if j % 2 == 0 or (aid == A_LK and j >= n_old):
                             hist.append((("deepcopy", recv), None))
                             n += 1
                             hist.append((("helper", n - 1, (kind, a), dict(h, inplace=True)), None))
@@ -372,6 +437,8 @@ def object_addressed():
                         ("transform_item", aid, H([p], fn=("id",))),
                         ("without_item", aid, H([p])),
                         ("with_item", aid, H([p])),
+                        ("with_item", aid, H([p], insert=True)),           # no index: appended
+                        ("with_item", aid, H([p], insert=True, kw=kw)),
                         ("with_item", aid, H([p], index=V(0))),
                         ("with_item", aid, H([p], index=V(1), kw=kw)),
                         ("update_item", aid, H([p], kw=kw, by_index=False)),
@@ -400,5 +467,18 @@ def object_addressed():
 def spec_elements(rng, n_ops):
     """element helpers on List/Dict of (keyed) spec classes: keywords build/update the
     element, bare keys are promoted, dicts are constructor arguments (conforming arguments)"""
-    return ig.gen_case(rng, n_ops, bad_rate=0.0, fail_rate=0.0, inplace_rate=0.35,
+    case = ig.gen_case(rng, n_ops, bad_rate=0.0, fail_rate=0.0, inplace_rate=0.35,
                        weights={"construct": 1, "setattr": 1, "item": 9, "scalar": 1, "deepcopy": 1})
+    return insert_without_index(case, rng, 0.4)
+
+
+def insert_without_index(case, rng, rate):
+    """the shared history grammar draws `_insert` only together with an `_index`: hand `_insert=True`
+    to a share of the list `with_<item>` calls that give NO index (the item is appended all the same)"""
+    fam = {a["aid"]: a["ty"][0] for c in case["table"] for a in c.get("attrs", []) if "ty" in a}
+    for op, _ in case["ops"]:
+        if op[0] == "helper" and op[2][0] == "with_item" and fam.get(op[2][1]) == "list":
+            h = op[3]
+            if h.get("index", MISSING)[0] == "missing" and not h.get("insert") and rng.random() < rate:
+                h["insert"] = True
+    return case
